@@ -6,9 +6,11 @@ import (
 	"bytes"
 	"errors"
 	"fmt"
+	"runtime"
 	"strings"
 	"syscall"
 	"testing"
+	"time"
 
 	libaudit "github.com/elastic/go-libaudit/v2"
 	"pgregory.net/rapid"
@@ -425,4 +427,118 @@ func TestC08Errnos(t *testing.T) {
 		}
 	}
 	hC08.Extra("errno_sweep_cases", n)
+}
+
+// TestC08RealTransport: the commands over the library's own netlink transport against a real kernel, in a
+// private network namespace (see TestC18Multicast). The peer is rtnetlink, which refuses every audit message
+// type with EOPNOTSUPP — that is the kernel's verdict each command has to report. Before the command, which
+// is the FIRST one on a fresh client, 0..3 unsolicited kernel messages with sequence number 0 are queued on
+// the client's socket: address notifications caused by a raw socket whose requests carry sequence 0.
+func TestC08RealTransport(t *testing.T) {
+	rounds := hx.EnvInt("VERIF_N", 120)
+	type result struct {
+		what string
+		err  error
+	}
+	res := make(chan result, 1)
+	go func() {
+		runtime.LockOSThread() // never unlocked: the thread that lives in the private namespace ends with the goroutine
+		what, err := realTransportRounds(t, rounds)
+		res <- result{what, err}
+	}()
+	r := <-res
+	if r.err != nil {
+		hC08.Fail(t, "TestC08RealTransport", C08Case{}, "%s: %v", r.what, r.err)
+	}
+}
+
+func realTransportRounds(t *testing.T, rounds int) (string, error) {
+	if err := syscall.Unshare(syscall.CLONE_NEWNET); err != nil {
+		hC08.Class("no-private-network-namespace")
+		t.Logf("unshare(CLONE_NEWNET): %v — stage skipped", err)
+		return "", nil
+	}
+	req, err := syscall.Socket(syscall.AF_NETLINK, syscall.SOCK_RAW, syscall.NETLINK_ROUTE)
+	if err != nil {
+		return "requester socket", err
+	}
+	defer syscall.Close(req)
+	if err := syscall.Bind(req, &syscall.SockaddrNetlink{Family: syscall.AF_NETLINK}); err != nil {
+		return "requester socket", err
+	}
+	ackOf := func() error {
+		buf := make([]byte, 4096)
+		for try := 0; try < 2000; try++ {
+			n, _, err := syscall.Recvfrom(req, buf, syscall.MSG_DONTWAIT)
+			if err == syscall.EAGAIN || err == syscall.EINTR {
+				time.Sleep(100 * time.Microsecond)
+				continue
+			}
+			if err != nil || n < 20 || ne.Uint32(buf[16:]) != 0 {
+				return fmt.Errorf("the kernel did not acknowledge the address change: % x (%v)", buf[:max(n, 0)], err)
+			}
+			return nil
+		}
+		return syscall.EAGAIN
+	}
+	cmds := []string{"GetStatus", "SetEnabled", "GetRules", "AddRule", "DeleteRule", "SetRateLimit", "SetBacklogLimit"}
+	for r := 0; r < rounds; r++ {
+		nEvents, cmd := r%4, cmds[r%len(cmds)]
+		what := fmt.Sprintf("%s as the first command of a fresh client with %d unsolicited sequence-0 kernel messages queued before the kernel's answer (EOPNOTSUPP)", cmd, nEvents)
+		hC08.Eval()
+		nc, err := libaudit.NewNetlinkClient(syscall.NETLINK_ROUTE, rtmgrpIPv4IfAddr, make([]byte, 16384), nil)
+		if err != nil {
+			return what, fmt.Errorf("NewNetlinkClient: %v", err)
+		}
+		cl := &libaudit.AuditClient{Netlink: nc}
+		for e := 0; e < nEvents; e++ {
+			payload := []byte{syscall.AF_INET, 32, 0, 0, 1, 0, 0, 0}
+			for _, a := range []uint16{syscall.IFA_LOCAL, syscall.IFA_ADDRESS} {
+				payload = append(payload, 8, 0, byte(a), 0, 10, 99, byte(r), byte(e+1))
+			}
+			for _, typ := range []uint16{syscall.RTM_NEWADDR, syscall.RTM_DELADDR}[:1+e%2] {
+				flags := uint16(syscall.NLM_F_REQUEST | syscall.NLM_F_ACK)
+				if typ == syscall.RTM_NEWADDR {
+					flags |= syscall.NLM_F_CREATE
+				}
+				if err := syscall.Sendto(req, simk.Msg(typ, flags, 0, 0, payload), 0, &syscall.SockaddrNetlink{Family: syscall.AF_NETLINK}); err != nil {
+					nc.Close()
+					return what, fmt.Errorf("address change request: %v", err)
+				}
+				if err := ackOf(); err != nil {
+					nc.Close()
+					return what, err
+				}
+			}
+		}
+		switch cmd {
+		case "GetStatus":
+			_, err = cl.GetStatus()
+		case "SetEnabled":
+			err = cl.SetEnabled(true, libaudit.WaitForReply)
+		case "GetRules":
+			_, err = cl.GetRules()
+		case "AddRule":
+			err = cl.AddRule(make([]byte, 1040))
+		case "DeleteRule":
+			err = cl.DeleteRule(make([]byte, 1040))
+		case "SetRateLimit":
+			err = cl.SetRateLimit(7, libaudit.WaitForReply)
+		case "SetBacklogLimit":
+			err = cl.SetBacklogLimit(7, libaudit.WaitForReply)
+		}
+		nc.Close()
+		if err == nil {
+			return what, fmt.Errorf("the call returned nil")
+		}
+		if !errors.Is(err, syscall.EOPNOTSUPP) {
+			return what, fmt.Errorf("error %q does not identify the kernel's errno EOPNOTSUPP", err)
+		}
+		hC08.Class("real-transport-first-command")
+		if nEvents > 0 {
+			hC08.Class("real-transport-first-command-with-queued-events")
+			hC08.NonTrivial(hx.FP("realtransport", r), func() string { return what })
+		}
+	}
+	return "", nil
 }
